@@ -67,12 +67,13 @@ type proxy struct {
 	broken  string
 	calls   int
 	// snapshot hand-over
-	src        map[int][]sent  // the source logs (to name a snapshot by its position and to build its checkpoint)
-	handover   bool            // a hand-over is in progress: no receiver crash now (see runE)
-	restarted  bool            // the receiver has been crashed at least once in this run
-	copied     map[string]bool // checkpoints already copied into the receiver's remote backup directory
-	skipCopy   int             // how many transfer notifications still "fail to bring the files"
-	snapFaults int
+	src              map[int][]sent  // the source logs (to name a snapshot by its position and to build its checkpoint)
+	handover         bool            // a hand-over is in progress: no receiver crash now (see runE)
+	restarted        bool            // the receiver has been crashed at least once in this run
+	copied           map[string]bool // checkpoints already copied into the receiver's remote backup directory
+	skipCopy         int             // how many transfer notifications still "fail to bring the files"
+	loseNextTransfer bool            // the next transfer notification is lost before it reaches the receiver
+	snapFaults       int
 }
 
 func (p *proxy) dial() {
@@ -286,6 +287,10 @@ func (p *proxy) NotifyTransferSnap(ctx context.Context, req *syncerpb.RaftApplyS
 		p.maxc = c
 	}
 	p.handover = true
+	if p.loseNextTransfer {
+		p.loseNextTransfer = false
+		return nil, errors.New("injected: request lost")
+	}
 	f := p.snapFault()
 	if f == 2 {
 		return nil, errors.New("injected: request lost")
@@ -397,7 +402,7 @@ func newSyncerSM(cluster string, proxyAddr string, httpPort string) (node.StateM
 }
 
 // runE returns (case ops in kind-B syntax, observations) or an error (inconclusive).
-func runE(l *live, pre string, r *hx.Rng, withSnap bool, failFirstApply bool) (string, string, error) {
+func runE(l *live, pre string, r *hx.Rng, withSnap bool, failFirstApply bool, twoSnaps bool) (string, string, error) {
 	k := 1 + r.Pick(2)
 	if withSnap {
 		k = 1 // a remote snapshot replaces the whole store: one source
@@ -406,6 +411,14 @@ func runE(l *live, pre string, r *hx.Rng, withSnap bool, failFirstApply bool) (s
 	px := &proxy{l: l, pre: pre, r: r, payload: map[string]uint64{}, src: map[int][]sent{}, copied: map[string]bool{}}
 	for c := 1; c <= k; c++ {
 		src[c] = genSource(r, c)
+		if twoSnaps {
+			for len(src[c]) < 5 {
+				src[c] = genSource(r, c)
+			}
+			for j := range src[c] {
+				src[c][j].t = src[c][0].t // both snapshots of the same raft term
+			}
+		}
 		px.src[c] = src[c]
 		for _, e := range src[c] {
 			px.payload[fmt.Sprintf("%d.%d", c, e.i)] = e.p
@@ -414,6 +427,7 @@ func runE(l *live, pre string, r *hx.Rng, withSnap bool, failFirstApply bool) (s
 	px.dial()
 	httpPort := ""
 	handAt, handTo := -1, 0
+	handAt2, handTo2 := -1, 0
 	if withSnap {
 		// the stand-in for the source replica holding the snapshot's backup: answers the check-backup request
 		hl, herr := net.Listen("tcp", "127.0.0.1:0")
@@ -428,6 +442,14 @@ func runE(l *live, pre string, r *hx.Rng, withSnap bool, failFirstApply bool) (s
 		n := len(src[1])
 		handAt = r.Pick(n)
 		handTo = handAt + 1 + r.Pick(n-handAt)
+		if twoSnaps {
+			// a first hand-over early, a second one later: its first announcement (NotifyTransferSnap) is LOST, the
+			// sender polls the status 5 s later all the same
+			handAt = r.Pick(2)
+			handTo = handAt + 1
+			handAt2 = handTo + r.Pick(n-handTo-1)
+			handTo2 = handAt2 + 1 + r.Pick(n-handAt2)
+		}
 		// the first transfer "does not bring the files": the receiver's apply of the snapshot FAILS, the sender must
 		// notice (waitApplySnapStatus), give up this attempt and hand the snapshot over again
 		if failFirstApply || r.Chance(0.4) {
@@ -543,6 +565,21 @@ func runE(l *live, pre string, r *hx.Rng, withSnap bool, failFirstApply bool) (s
 				return "", "", errors.New("snapshot hand-over did not complete in 4 attempts")
 			}
 			next[c] = handTo
+			if handAt2 >= 0 {
+				// arm the second hand-over
+				handAt, handTo = handAt2, handTo2
+				handAt2 = -1
+				if handAt < next[c] {
+					handAt = next[c]
+				}
+				if handTo <= handAt {
+					handTo = handAt + 1
+				}
+				px.mu.Lock()
+				px.loseNextTransfer = true
+				px.skipCopy = 0
+				px.mu.Unlock()
+			}
 			continue
 		}
 		e := src[c][next[c]]
